@@ -82,11 +82,17 @@ Compare(S, res, in, ob, hist2) ==
       DA == {d[1] : d \in D}
       balIss == IF D = {} \/ res.info.taint THEN {} ELSE
                 {<<"C04", <<"balances differ from the exact effects of the block's events", h, D>>>>}
-                \cup (IF DA \cap winnersA # {} /\ DA \cap (batchA \cup special) = {} THEN {<<"C11", <<"reward balance delta differs from the graded payout", h, DA \cap winnersA>>>>} ELSE {})
-                \cup (IF DA \cap burners # {} /\ h < TAct("V20") /\ DA \cap batchA = {} THEN {<<"C11", <<"burn credit differs", h, DA \cap burners>>>>} ELSE {})
-                \cup (IF DA \cap res.info.stakers # {} /\ DA \cap (batchA \cup winnersA \cup special) = {} THEN {<<"C14", <<"staking payout differs", h, DA \cap res.info.stakers>>>>} ELSE {})
-                \cup (IF DA \cap special # {} /\ DA \cap (batchA \cup winnersA) = {} THEN {<<"C15", <<"scheduled issuance differs", h, DA \cap special>>>>} ELSE {})
-                \cup (IF DA \cap batchA # {} /\ DA \cap (winnersA \cup special \cup res.info.stakers) = {} THEN {<<"C03", <<"batch effects are not all-or-nothing / exact", h, DA \cap batchA>>>>} ELSE {})
+                \* role-specific tags: only addresses whose ONLY role in this block is the one in question
+                \cup (LET X == (DA \cap winnersA) \ (batchA \cup special \cup res.info.stakers) IN
+                      IF X # {} THEN {<<"C11", <<"reward balance delta differs from the graded payout", h, X>>>>} ELSE {})
+                \cup (LET X == (DA \cap burners) \ (batchA \cup winnersA \cup special) IN
+                      IF X # {} /\ h < TAct("V20") THEN {<<"C11", <<"burn credit differs", h, X>>>>} ELSE {})
+                \cup (LET X == (DA \cap res.info.stakers) \ (batchA \cup winnersA \cup special) IN
+                      IF X # {} THEN {<<"C14", <<"staking payout differs", h, X>>>>} ELSE {})
+                \cup (LET X == (DA \cap special) \ (batchA \cup winnersA) IN
+                      IF X # {} THEN {<<"C15", <<"scheduled issuance differs", h, X>>>>} ELSE {})
+                \cup (LET X == (DA \cap batchA) \ (winnersA \cup special \cup res.info.stakers \cup burners) IN
+                      IF X # {} THEN {<<"C03", <<"batch effects are not all-or-nothing / exact", h, X>>>>} ELSE {})
       \* C06: an address whose balance of some asset grew by exactly 2, 3 or 4 times the amount the block's events credit to it
       \* (an entry's effect applied more than once); only for parties of batches considered in this block
       pre == ObsBal(ObsBalOf(S))
